@@ -22,6 +22,7 @@ ASSUMPTIONS = [
 ]
 EXHAUSTIVE = {'quick': False, 'thorough': False}
 PYOPT_KINDS = (None,)
+CLOCALE_KINDS = (None,)
 KINDS = ('dash', 'slash', 'block', 'block1', 'mblock')
 
 
